@@ -9,6 +9,7 @@ import (
 	"time"
 
 	res "github.com/jirenius/go-res"
+	"github.com/jirenius/go-res/store"
 
 	nats "github.com/nats-io/nats.go"
 	"verif/harness/internal/core"
@@ -468,6 +469,8 @@ func c04Enum(c *core.Ctx, p c04Params) {
 		c04NoQueue(c, "a.b")
 		c04NoQueue(c, "")
 		c04NoLogger(c)
+		c04StoreBacked(c, "mock")
+		c04StoreBacked(c, "badger")
 		c04WideOwnership(c, "library")
 		c04WideOwnership(c, "a.b")
 		c04Restart(c, 1)
@@ -553,6 +556,74 @@ func c04NoQueue(c *core.Ctx, name string) {
 				c.Violation("C04/"+kind+":noqueue", fmt.Sprintf("without queue group, request %s was delivered through %d subscriptions and got %d responses", subj, delivered, len(resp)), w)
 			}
 		}
+	}
+}
+
+// c04StoreBacked: a resource served by store.Handler next to call methods that write to
+// the same store (the get-404-then-create flow and its relatives). Every request of the
+// sequence - gets of missing and existing items, creates, updates, deletes, duplicates -
+// gets exactly one response; a request whose handler is stuck in the library counts as
+// unanswered.
+func c04StoreBacked(c *core.Ctx, impl string) {
+	st, _, err := newStore(storeKind{Impl: impl, Prefix: "c04sb"}, fmt.Sprintf("%d", time.Now().UnixNano()))
+	if err != nil {
+		c.Inconclusive("store: " + err.Error())
+		return
+	}
+	write := func(r res.CallRequest, f func(wt store.WriteTxn) error) {
+		wt := st.Write(r.PathParam("id"))
+		defer wt.Close()
+		if err := f(wt); err != nil {
+			r.Error(err)
+			return
+		}
+		r.OK(nil)
+	}
+	val := func(r res.CallRequest) interface{} {
+		return map[string]interface{}{"u": r.PathParam("id"), "n": len(r.RawParams())}
+	}
+	for _, def := range []bool{false, true} {
+		h := store.Handler{Store: st, Transformer: store.IDTransformer("id", nil)}
+		if def {
+			h.Default = map[string]interface{}{"u": "default"}
+		}
+		rg := newRig("svc", func(s *res.Service) {
+			s.Handle("item.$id", res.Model, res.Access(res.AccessGranted), h,
+				res.Call("create", func(r res.CallRequest) { write(r, func(wt store.WriteTxn) error { return wt.Create(val(r)) }) }),
+				res.Call("update", func(r res.CallRequest) { write(r, func(wt store.WriteTxn) error { return wt.Update(val(r)) }) }),
+				res.Call("delete", func(r res.CallRequest) { write(r, func(wt store.WriteTxn) error { return wt.Delete() }) }))
+		})
+		if err := rg.start(); err != nil {
+			c.Inconclusive("service failed to start: " + err.Error())
+			return
+		}
+		id := fmt.Sprintf("sb%v", def)
+		seq := []string{"get", "call.create", "get", "call.create", "call.update", "get", "call.delete", "get", "call.delete", "call.update", "get", "call.create", "access", "get", "call.delete", "get", "call.create"}
+		for step, op := range seq {
+			subj := op + ".svc.item." + id
+			if strings.HasPrefix(op, "call.") {
+				subj = "call.svc.item." + id + "." + strings.TrimPrefix(op, "call.")
+			}
+			start := rg.C.Len()
+			inbox, done, delivered := rg.send(subj, []byte(`{"cid":"abc","params":{"step":1}}`))
+			c.Eval(1)
+			c.Obs("store_backed_requests", 1)
+			w := map[string]interface{}{"store": impl, "default": def, "sequence": seq[:step+1], "subject": subj}
+			answered := delivered == 1 && waitCh(done, 8*time.Second)
+			resp, _ := replies(rg.C.Since(start), inbox)
+			c.Distinct(fmt.Sprintf("store-backed/%s/%v/%d", impl, def, step))
+			if len(resp) != 1 {
+				w["responses"], w["handler_returned"] = payloadStrs(resp), answered
+				kind := "multiple-responses"
+				if len(resp) == 0 {
+					kind = "no-response"
+				}
+				c.Violation("C04/"+kind+":store-backed", fmt.Sprintf("%s store, step %d of %v: request %s got %d responses within 8 s (handler returned: %v)", impl, step+1, seq[:step+1], subj, len(resp), answered), w)
+				go rg.stop() // the stuck handler may keep Shutdown from returning
+				return
+			}
+		}
+		rg.stop()
 	}
 }
 
